@@ -33,6 +33,8 @@ var (
 	ErrTxDuplicated = errors.New("transaction duplicated in different blocks")
 	// ErrRootBlockAlreadyExist is returned when two genesis block is checked in the process of confirming block
 	ErrRootBlockAlreadyExist = errors.New("this ledger already has genesis block")
+	// ErrBlockAlreadyExist is returned when a block that is already stored is confirmed again
+	ErrBlockAlreadyExist = errors.New("block already exists in this ledger")
 	// ErrTxNotConfirmed return tx not confirmed error
 	ErrTxNotConfirmed = errors.New("transaction not confirmed")
 	// NumCPU returns the number of CPU cores for the current system
@@ -561,6 +563,16 @@ func (l *Ledger) ConfirmBlock(block *pb.InternalBlock, isRoot bool) ConfirmStatu
 	blkTimer := timer.NewXTimer()
 	l.xlog.Info("start to confirm block", "blockid", utils.F(block.Blockid), "txCount", len(block.Transactions))
 	var confirmStatus ConfirmStatus
+	if !isRoot {
+		// a stored block must not be confirmed again: it would be rewritten as a branch block
+		// (in-trunk flag cleared, height index and branch info disturbed) while still on the trunk
+		if exist, _ := l.blocksTable.Has(block.Blockid); exist {
+			confirmStatus.Succ = false
+			confirmStatus.Error = ErrBlockAlreadyExist
+			l.xlog.Warn("block already exists in ledger", "blockid", utils.F(block.Blockid))
+			return confirmStatus
+		}
+	}
 	dummyTransactions := []*pb.Transaction{}
 	realTransactions := block.Transactions // 真正的交易转存到局部变量
 	block.Transactions = dummyTransactions // block表不保存transaction详情
